@@ -398,7 +398,10 @@ def run(check):
         jobs.append(dict(j, script=script.random_script(rnd, rnd.choice([4, 8, 16]), LOSSY), seed=j["seed"], **{"class": "lossy:" + j["class"]}))
 
     # ---- active impostor (tls.Context level): a party without the resumption secret and without a certificate
-    for names in (["SHpskbad", "EE", "FIN"], ["SHpskbad", "EEearly", "FIN"], ["SHpskbad", "EE", "CERT", "CV", "FIN"]):
+    # (the flights with a plain ServerHello - no PSK selected, certificate skipped, with and without the early-data indication -
+    # were added after seeded/C03-M5)
+    for names in (["SHpskbad", "EE", "FIN"], ["SHpskbad", "EEearly", "FIN"], ["SHpskbad", "EE", "CERT", "CV", "FIN"],
+                  ["SH", "EEearly", "FIN"], ["SH", "EE", "FIN"], ["SH", "EEearly", "CERT", "FIN"]):
         jobs.append({"k": dict(DEFAULT_K, cert="selfsigned", cpsk=True, spsk=False), "ident": "selfsigned", "tamper": None, "script": [],
                      "seed": 4242, "class": "impostor", "impostor": True, "names": names})
     t0 = time.time()
